@@ -129,6 +129,7 @@ def main():
                 disagreements.append({"what": "interleaved capture of %s" % [c.kind for c in conns], "model": mt[:100], "impl": it[:100], "capture": case.capture.hex(), "keylog": case.keylog, "args": args})
     if m:
         ck.cov["oracle_queries"] = m.queries
+        ck.cov["model_runs_skipped"] = m.skipped
         m.close()
     impl.cleanup()
     ck.cov["traces_validated_against_impl"] = hist["model_runs"]
